@@ -1,14 +1,15 @@
 (* C12 -- property theorems only.  (a)-(c'') are about kernels regenerated from /repo's TensorMath.py at T := R (round 3 added (b') the
    first, trigonometric stage of eigen_sym33_non_unit, (c') the Taylor kernel's truncation error and (c'') the argsort-based kernels
-   wired into log_symm / pow_symm); (d) is the soundness
+   wired into log_symm / pow_symm; round 4 added (b'') the part of eigen_sym33_non_unit after the trigonometric root: pivoted deflation,
+   2x2 Wilkinson shift and eigenvectors are exact given an exact simple eigenvalue); (d) is the soundness
    of the executable result checkers (model/M_C12.v) that ./check runs with vm_compute on the exact rational values of the
    implementation's outputs.  The accuracy of eigen_sym33_unit, sqrtm_dbp, logm_iss for ALL inputs is NOT proved (approximate
    algorithms in binary64): each explored instance is certified by a verified checker instead -- partial. *)
 From Coq Require Import Reals QArith Qabs List.
 From OV.base Require Import Num.
-From OV.gen Require Import Gen_TensorMath Gen_TensorMathFun.
-From OV.model Require Import M_C08 M_C12 M_C12_Trig.
-From OV.proofs Require Import L_C08 L_C12 L_C12_RD L_C12_Trig.
+From OV.gen Require Import Gen_TensorMath Gen_TensorMathFun Gen_TensorMathEig.
+From OV.model Require Import M_C08 M_C12 M_C12_Trig M_C12_Defl M_C12_DBP.
+From OV.proofs Require Import L_C08 L_C12 L_C12_RD L_C12_Trig L_C12_Defl L_C12_DBP.
 Import ListNotations.
 Notation M := (mat R).
 Local Open Scope R_scope.
@@ -57,10 +58,54 @@ Proof. exact rr_bounded_of_real_roots. Qed.
 Example C12_trig_nonvacuous : st_c1 Aex = 4 /\ st_c2 Aex = -7 /\ st_c3 Aex = -6 /\ st_c2 Aex < 0 /\ Rabs (st_rr Aex) <= 1
   /\ cubic (st_c2 Aex) (st_c3 Aex) 3 = 0 /\ Rabs (st_eval2 Aex - 3) <= 1 / 10000000000000.
 Proof. exact trig_nonvacuous. Qed.
+(* (b'') round 4 -- the part of eigen_sym33_non_unit AFTER the trigonometric root, in exact arithmetic: pivoted deflation (largest row
+   of C = D - lam I, Gram-Schmidt of the other two rows against it, larger residual, cross product), projection of D on the plane
+   spanned by the pivot row k and the residual a, 2x2 Wilkinson-shift formula, in-plane eigenvectors with their degeneracy override.
+   The source segment between `eval2 = ...` and `evec1 = ...` is regenerated on every run as four stage kernels (cut at ki_ki, evec2,
+   eval1); eig_compose chains them as the routine's data flow does; deflation_exact (model/M_C12_Defl.v) says: the characteristic
+   polynomial x^3 + c2 x + c3 of the traceless symmetric D factors as (x - lam)(x - eval0)(x - eval1) (Vieta: eval0, eval1 ARE the other
+   two roots), D evec2 = lam evec2, D evec0 = eval0 evec0, D evec1 = eval1 evec1, the three vectors are nonzero and mutually orthogonal.
+   Hypotheses: lam is an exact root and a SIMPLE one (3 lam^2 + c2 <> 0) -- this single condition implies both non-degeneracy facts the
+   routine relies on without testing (pivot row nonzero; D - lam I of rank 2, i.e. a nonzero Gram-Schmidt residual). *)
+Theorem C12_deflation_exact : forall dxx dyy dzz dxy dyz dzx lam : R,
+  dxx + dyy + dzz = 0 ->
+  cubic3 (sE2 dxx dyy dzz dxy dyz dzx) (sC3 dxx dyy dzz dxy dyz dzx) lam = 0 ->
+  3 * lam * lam + sE2 dxx dyy dzz dxy dyz dzx <> 0 ->
+  deflation_exact dxx dyy dzz dxy dyz dzx lam (@eig_compose R NumR dxx dyy dzz dxy dyz dzx lam).
+Proof. exact compose_exact. Qed.
+(* the same for a tensor A: D = deviator of sym A and c2, c3 as the generated first stage computes them; the Vieta clause then speaks
+   about the characteristic polynomial of that deviator *)
+Theorem C12_deflation_exact_tensor : forall (A : M) (lam : R),
+  cubic (st_c2 A) (st_c3 A) lam = 0 -> 3 * lam * lam + st_c2 A <> 0 -> deflation_exact_tensor A lam.
+Proof. exact deflation_exact_tensor_thm. Qed.
+Theorem C12_deflation_vieta_charpoly : forall (A : M) (lam : R), deflation_exact_tensor A lam ->
+  let '(e0, e1, _, _, _, _, _, _, _, _, _) := deflate_tensor A lam in
+  forall x, charpoly (devsym A) x = (x - lam) * (x - e0) * (x - e1).
+Proof. exact deflation_vieta_charpoly. Qed.
+(* the exact trigonometric root of (b') -- the root of largest magnitude, within 4e-14 sqrt(-c2/3) of the computed eval2 -- is always
+   a simple root: run with it, the deflation returns the exact other two eigenvalues and three exact orthogonal eigenvectors *)
+Theorem C12_deflation_after_exact_trig_root : forall A : M, st_c2 A < 0 -> Rabs (st_rr A) <= 1 ->
+  let lam := exact_root (st_c2 A) (st_c3 A) in
+  deflation_exact_tensor A lam
+  /\ Rabs (st_eval2 A - lam) <= 4 / 100000000000000 * sqrt (- st_c2 A / 3)
+  /\ (forall mu, cubic (st_c2 A) (st_c3 A) mu = 0 -> Rabs mu <= Rabs lam).
+Proof. exact deflation_after_exact_trig_root. Qed.
+(* the Wilkinson-shift formula alone: the two values are the roots of the 2x2 characteristic polynomial (sum and product) *)
+Theorem C12_wilkinson_formula : forall xx yy xy2 sq sg : R, 0 <= xy2 -> 0 <= sq ->
+  sq * sq = (1 / 2 * (xx - yy)) * (1 / 2 * (xx - yy)) + xy2 ->
+  (sg = -1 /\ 1 / 2 * (xx - yy) < 0 \/ sg = 1 /\ 0 <= 1 / 2 * (xx - yy)) ->
+  let e0 := yy + 1 / 2 * (xx - yy) - sq * sg in let e1 := xx + yy - e0 in
+  e0 + e1 = xx + yy /\ e0 * e1 = xx * yy - xy2 /\ (xy2 = 0 -> e0 = yy).
+Proof. exact wilk2. Qed.
+Example C12_deflation_nonvacuous : cubic (st_c2 Aex) (st_c3 Aex) 3 = 0 /\ 3 * 3 * 3 + st_c2 Aex <> 0 /\ st_c2 Aex < 0 /\ Rabs (st_rr Aex) <= 1.
+Proof. exact deflation_nonvacuous. Qed.
 (* NOT PROVED: that a real symmetric tensor has three real eigenvalues (the spectral theorem; it is the hypothesis of
-   C12_trig_argument_bounded); the two remaining eigenvalues, which the routine does NOT obtain from the trigonometric formula but
-   from a pivoted deflation and a 2x2 Wilkinson shift; the eigenvectors; the final argsort (ascending order is certified per instance
-   by check_eig); binary64 rounding of the stage. *)
+   C12_trig_argument_bounded); the deflation run with the COMPUTED eval2 (a 4e-14-perturbed eigenvalue: D - eval2 I is then not
+   singular and the statements become perturbation bounds -- only measured, per instance, by check_eig); a DOUBLE root lam (excluded by
+   the simple-root hypothesis; the largest-magnitude root is never double unless D = 0); the isotropic fallback (c2 >= -1e-30 c1^2)
+   and the final argsort (ascending order is certified per instance by check_eig); that eig_compose and the one-piece segment kernel
+   eig_deflate are the same Coq term (true by conversion -- `reflexivity` succeeds in 3 minutes, too slow for the build -- and checked
+   on every run by executing both at binary64, bit for bit); binary64 rounding of the stage. *)
 (* (c) the cancellation-free relative differences of the derivative rules are the divided differences (Daleckii-Krein) *)
 Theorem C12_sqrt_relative_difference : forall l1 l2, 0 < l1 -> 0 < l2 -> l1 <> l2 ->
   @_sqrt_relative_difference R NumR l1 l2 = (sqrt l1 - sqrt l2) / (l1 - l2).
@@ -107,6 +152,27 @@ Example C12_rd_nonvacuous :
   /\ (Rabs (@_log_relative_difference R NumR 3 4 - 2876820724517809 / 10000000000000000) <= 1 / 1000000000000000).
 Proof. exact rd_nonvacuous. Qed.
 
+(* (e) round 4 -- LinAlg.sqrtm_dbp (Denman-Beavers iteration, product form), hand model of the loop body for 3x3 matrices
+   (model/M_C12_DBP.v: scale by g, N = inv(M) with the generated TensorMath.inv, X <- X (I + N) / 2, M <- (I + (M + N) / 2) / 2; tied to
+   the routine by a correspondence stream).  For ANY list of scale factors, as long as every scaled M is invertible, the iterates
+   started from X0 = M0 = A satisfy X^2 = A M and X M = M X; hence X^2 - A = A (M - I): the loop's exit test |M - I|_F <= tol bounds
+   the residual of the returned root by |A| tol, and the fixed point M = I is exactly "X is a square root of A". *)
+Theorem C12_dbp_invariant : forall (A : M) (gs : list R) (X Mk : M), mmul X X = mmul A Mk -> mmul X Mk = mmul Mk X ->
+  dbp_regular gs (X, Mk) ->
+  let XM := dbp_iter gs (X, Mk) in mmul (fst XM) (fst XM) = mmul A (snd XM) /\ mmul (fst XM) (snd XM) = mmul (snd XM) (fst XM).
+Proof. exact dbp_invariant. Qed.
+Theorem C12_dbp_residual : forall (A : M) (gs : list R), dbp_regular gs (A, A) ->
+  let XM := dbp_iter gs (A, A) in
+  msub (mmul (fst XM) (fst XM)) A = mmul A (msub (snd XM) mid) /\ (snd XM = mid -> mmul (fst XM) (fst XM) = A).
+Proof. exact dbp_residual. Qed.
+Example C12_dbp_nonvacuous : let A := mk 4 0 0 0 9 0 0 0 16 in
+  dbp_regular [1%R] (A, A) /\ fst (dbp_iter [1%R] (A, A)) = mk (5 / 2) 0 0 0 5 0 0 0 (17 / 2).
+Proof. exact dbp_nonvacuous. Qed.
+(* NOT PROVED: convergence of the iteration (M_k -> I; quadratic for matrices without eigenvalues on the closed negative axis), that
+   the scaled M_k stay invertible (hypothesis dbp_regular), sizes other than 3x3 (the proofs use only ring laws and the two-sided
+   inverse, but are stated over the 3x3 record), the role of the scaling heuristic, binary64 rounding, and the inverse
+   scaling-and-squaring logarithm _logm_iss / log_pade_pf (certified per instance through expm(logm A) = A only). *)
+
 (* (d) verified result checkers *)
 Local Open Scope Q_scope.
 Theorem C12_checker_sound_eig : forall A lam V tol, check_eig A lam V tol = true ->
@@ -137,6 +203,9 @@ Print Assumptions C12_pade_bound.
 Print Assumptions C12_log_taylor_truncation.
 Print Assumptions C12_pow_relative_difference_argsort.
 Print Assumptions C12_trig_root_error.
+Print Assumptions C12_deflation_exact.
+Print Assumptions C12_deflation_after_exact_trig_root.
+Print Assumptions C12_dbp_residual.
 Print Assumptions C12_inv_right.
 Print Assumptions C12_sqrt_relative_difference.
 Print Assumptions C12_checker_sound_eig.
